@@ -17,7 +17,7 @@ var universeMenu = []inputs.Input{
 	{Fam: "docx", N: 20, P: 50}, {Fam: "ole", N: 600}, {Fam: "png", N: 32}, {Fam: "gif", N: 8}, {Fam: "pdf", N: 30},
 	{Fam: "random", N: 64, Seed: 3}, {Fam: "empty"}, {Fam: "csv", N: 4, V: 3}, {Fam: "ndjson", N: 4}, {Fam: "shebang", V: 0, N: 5},
 	{Fam: "svg", N: 10}, {Fam: "text_nul", N: 100, P: 50}, {Fam: "latin1", N: 40, P: 5}, {Fam: "gzip", N: 10}, {Fam: "elf", N: 16},
-	{Fam: "bom8", V: 0, P: 1}, {Fam: "bom8", V: 3}, {Fam: "json_trunc", N: 120, P: 70}, {Fam: "json_bad", N: 120, P: 40, V: 1}, {Fam: "tsv", N: 3, V: 2}, {Fam: "rtf", N: 10},
+	{Fam: "bom8", V: 0, P: 1}, {Fam: "bom8", V: 3}, {Fam: "utf8", N: 90, V: 3}, {Fam: "utf8", N: 40, V: 1, P: 1}, {Fam: "json_trunc", N: 120, P: 70}, {Fam: "json_bad", N: 120, P: 40, V: 1}, {Fam: "tsv", N: 3, V: 2}, {Fam: "rtf", N: 10},
 }
 
 // parents lists attachment points (names given to Lookup) and the input
@@ -28,7 +28,7 @@ var parents = []struct {
 }{
 	{"", nil},
 	{"", nil},
-	{"text/plain", []string{"text", "json", "geojson", "har", "gltf", "html_meta", "xml_enc", "csv", "ndjson", "shebang", "svg", "latin1", "json_trunc", "json_bad", "tsv", "rtf", "bom8"}},
+	{"text/plain", []string{"text", "json", "geojson", "har", "gltf", "html_meta", "xml_enc", "csv", "ndjson", "shebang", "svg", "latin1", "json_trunc", "json_bad", "tsv", "rtf", "bom8", "utf8"}},
 	{"application/json", []string{"json", "geojson", "har", "gltf", "json_trunc"}},
 	{"application/geo+json", []string{"geojson"}},
 	{"text/html", []string{"html_meta"}},
@@ -232,7 +232,7 @@ func pathOf(fam string) []string {
 		return []string{"", "text/plain", "text/csv"}
 	case "svg":
 		return []string{"", "text/plain", "image/svg+xml"}
-	case "text", "latin1", "ndjson", "shebang", "tsv", "rtf", "json_bad", "bom8", "text_nul":
+	case "text", "latin1", "ndjson", "shebang", "tsv", "rtf", "json_bad", "bom8", "text_nul", "utf8":
 		return []string{"", "text/plain"}
 	case "docx":
 		return []string{"", "application/zip", "application/vnd.openxmlformats-officedocument.wordprocessingml.document"}
